@@ -94,6 +94,22 @@ module Coq__1 = struct
 end
 include Coq__1
 
+(** val mul : nat -> nat -> nat **)
+
+let rec mul n0 m =
+  match n0 with
+  | O -> O
+  | S p -> add m (mul p m)
+
+(** val sub : nat -> nat -> nat **)
+
+let rec sub n0 m =
+  match n0 with
+  | O -> n0
+  | S k -> (match m with
+            | O -> n0
+            | S l -> sub k l)
+
 type positive =
 | XI of positive
 | XO of positive
@@ -191,6 +207,13 @@ module Pos =
        | XO q -> XO (succ q)
        | XH -> XI XH)
 
+  (** val pred_double : positive -> positive **)
+
+  let rec pred_double = function
+  | XI p -> XI (XO p)
+  | XO p -> XI (pred_double p)
+  | XH -> XH
+
   (** val mul : positive -> positive -> positive **)
 
   let rec mul x y =
@@ -221,6 +244,20 @@ module Pos =
 
   let compare =
     compare_cont Eq
+
+  (** val eqb : positive -> positive -> bool **)
+
+  let rec eqb p q =
+    match p with
+    | XI p0 -> (match q with
+                | XI q0 -> eqb p0 q0
+                | _ -> false)
+    | XO p0 -> (match q with
+                | XO q0 -> eqb p0 q0
+                | _ -> false)
+    | XH -> (match q with
+             | XH -> true
+             | _ -> false)
 
   (** val iter_op : ('a1 -> 'a1 -> 'a1) -> positive -> 'a1 -> 'a1 **)
 
@@ -405,6 +442,91 @@ let rec skipn n0 l =
 
 module Z =
  struct
+  (** val double : z -> z **)
+
+  let double = function
+  | Z0 -> Z0
+  | Zpos p -> Zpos (XO p)
+  | Zneg p -> Zneg (XO p)
+
+  (** val succ_double : z -> z **)
+
+  let succ_double = function
+  | Z0 -> Zpos XH
+  | Zpos p -> Zpos (XI p)
+  | Zneg p -> Zneg (Pos.pred_double p)
+
+  (** val pred_double : z -> z **)
+
+  let pred_double = function
+  | Z0 -> Zneg XH
+  | Zpos p -> Zpos (Pos.pred_double p)
+  | Zneg p -> Zneg (XI p)
+
+  (** val pos_sub : positive -> positive -> z **)
+
+  let rec pos_sub x y =
+    match x with
+    | XI p ->
+      (match y with
+       | XI q -> double (pos_sub p q)
+       | XO q -> succ_double (pos_sub p q)
+       | XH -> Zpos (XO p))
+    | XO p ->
+      (match y with
+       | XI q -> pred_double (pos_sub p q)
+       | XO q -> double (pos_sub p q)
+       | XH -> Zpos (Pos.pred_double p))
+    | XH ->
+      (match y with
+       | XI q -> Zneg (XO q)
+       | XO q -> Zneg (Pos.pred_double q)
+       | XH -> Z0)
+
+  (** val add : z -> z -> z **)
+
+  let add x y =
+    match x with
+    | Z0 -> y
+    | Zpos x' ->
+      (match y with
+       | Z0 -> x
+       | Zpos y' -> Zpos (Pos.add x' y')
+       | Zneg y' -> pos_sub x' y')
+    | Zneg x' ->
+      (match y with
+       | Z0 -> x
+       | Zpos y' -> pos_sub y' x'
+       | Zneg y' -> Zneg (Pos.add x' y'))
+
+  (** val opp : z -> z **)
+
+  let opp = function
+  | Z0 -> Z0
+  | Zpos x0 -> Zneg x0
+  | Zneg x0 -> Zpos x0
+
+  (** val sub : z -> z -> z **)
+
+  let sub m n0 =
+    add m (opp n0)
+
+  (** val mul : z -> z -> z **)
+
+  let mul x y =
+    match x with
+    | Z0 -> Z0
+    | Zpos x' ->
+      (match y with
+       | Z0 -> Z0
+       | Zpos y' -> Zpos (Pos.mul x' y')
+       | Zneg y' -> Zneg (Pos.mul x' y'))
+    | Zneg x' ->
+      (match y with
+       | Z0 -> Z0
+       | Zpos y' -> Zneg (Pos.mul x' y')
+       | Zneg y' -> Zpos (Pos.mul x' y'))
+
   (** val compare : z -> z -> comparison **)
 
   let compare x y =
@@ -420,6 +542,27 @@ module Z =
       (match y with
        | Zneg y' -> compOpp (Pos.compare x' y')
        | _ -> Lt)
+
+  (** val leb : z -> z -> bool **)
+
+  let leb x y =
+    match compare x y with
+    | Gt -> false
+    | _ -> true
+
+  (** val eqb : z -> z -> bool **)
+
+  let eqb x y =
+    match x with
+    | Z0 -> (match y with
+             | Z0 -> true
+             | _ -> false)
+    | Zpos p -> (match y with
+                 | Zpos q -> Pos.eqb p q
+                 | _ -> false)
+    | Zneg p -> (match y with
+                 | Zneg q -> Pos.eqb p q
+                 | _ -> false)
 
   (** val max : z -> z -> z **)
 
@@ -440,6 +583,18 @@ module Z =
   let abs = function
   | Zneg p -> Zpos p
   | x -> x
+
+  (** val to_nat : z -> nat **)
+
+  let to_nat = function
+  | Zpos p -> Pos.to_nat p
+  | _ -> O
+
+  (** val of_nat : nat -> z **)
+
+  let of_nat = function
+  | O -> Z0
+  | S n1 -> Zpos (Pos.of_succ_nat n1)
  end
 
 (** val list_ascii_of_string : char list -> char list **)
@@ -867,3 +1022,615 @@ let f_idx_text = function
   app (lit ('i'::('n'::('d'::('e'::('x'::('+'::[]))))))) (dec (Pos.to_nat q))
 | Zneg q ->
   app (lit ('i'::('n'::('d'::('e'::('x'::('-'::[]))))))) (dec (Pos.to_nat q))
+
+(** val is_blank : char -> bool **)
+
+let is_blank c =
+  Nat.eqb (code_of c) (S (S (S (S (S (S (S (S (S (S (S (S (S (S (S (S (S (S
+    (S (S (S (S (S (S (S (S (S (S (S (S (S (S
+    O))))))))))))))))))))))))))))))))
+
+(** val plain_lines : str -> str -> str list **)
+
+let rec plain_lines l cur =
+  match l with
+  | [] -> (rev0 cur) :: []
+  | c :: r ->
+    if Nat.eqb (code_of c) (S (S (S (S (S (S (S (S (S (S O))))))))))
+    then (rev0 cur) :: (plain_lines r [])
+    else plain_lines r (c :: cur)
+
+(** val rstrip : str -> str **)
+
+let rstrip l =
+  rev0 (drop_while is_blank (rev0 l))
+
+(** val split_cont : str -> str * bool **)
+
+let split_cont l =
+  match rev0 (rstrip l) with
+  | [] -> (l, false)
+  | c :: r -> if ascii_eqb c '&' then ((rev0 r), true) else (l, false)
+
+(** val cont_start : str -> str **)
+
+let cont_start l =
+  match drop_while is_blank l with
+  | [] -> l
+  | c :: r -> if ascii_eqb c '&' then r else l
+
+(** val logical : bool -> str list -> str **)
+
+let rec logical continued = function
+| [] -> []
+| l :: r ->
+  let (body, c) = split_cont (if continued then cont_start l else l) in
+  app body (logical c r)
+
+type binop =
+| OAdd
+| OSub
+| OMul
+| ODiv
+| OPow
+
+type mmop =
+| MMax
+| MMin
+
+(** val is_mul : binop -> bool **)
+
+let is_mul = function
+| OMul -> true
+| ODiv -> true
+| _ -> false
+
+type sexpr =
+| SVar of nat * z
+| SInt of z
+| SDec of z * nat
+| SNeg of sexpr
+| SPar of sexpr
+| SBin of binop * sexpr * sexpr
+| SAbs of sexpr
+| SExp of sexpr
+| SLog of sexpr
+| SMM of mmop * sexpr * sexpr
+
+(** val s_regroup : sexpr -> sexpr **)
+
+let rec s_regroup e = match e with
+| SNeg a -> SNeg (s_regroup a)
+| SPar a -> SPar (s_regroup a)
+| SBin (o, a, b) ->
+  let a' = s_regroup a in
+  let b' = s_regroup b in
+  if is_mul o
+  then (match a' with
+        | SNeg x -> SNeg (SBin (o, x, b'))
+        | _ -> SBin (o, a', b'))
+  else SBin (o, a', b')
+| SAbs a -> SAbs (s_regroup a)
+| SExp a -> SExp (s_regroup a)
+| SLog a -> SLog (s_regroup a)
+| SMM (m, a, b) -> SMM (m, (s_regroup a), (s_regroup b))
+| _ -> e
+
+type tok =
+| TInt of z
+| TDecT of z * nat
+| TId of str
+| TPlus
+| TMinus
+| TStar
+| TSlash
+| TPow
+| TLp
+| TRp
+| TComma
+| TEq
+
+(** val digit_val : char -> z **)
+
+let digit_val c =
+  Z.of_nat
+    (sub (code_of c) (S (S (S (S (S (S (S (S (S (S (S (S (S (S (S (S (S (S (S
+      (S (S (S (S (S (S (S (S (S (S (S (S (S (S (S (S (S (S (S (S (S (S (S (S
+      (S (S (S (S (S O)))))))))))))))))))))))))))))))))))))))))))))))))
+
+(** val digits_val : str -> z **)
+
+let digits_val ds =
+  fold_left (fun acc c ->
+    Z.add (Z.mul acc (Zpos (XO (XI (XO XH))))) (digit_val c)) ds Z0
+
+(** val lex : nat -> str -> tok list option **)
+
+let rec lex fuel l =
+  match fuel with
+  | O -> (match l with
+          | [] -> Some []
+          | _ :: _ -> None)
+  | S f ->
+    (match l with
+     | [] -> Some []
+     | c :: r ->
+       let cons = fun t rest ->
+         match lex f rest with
+         | Some ts -> Some (t :: ts)
+         | None -> None
+       in
+       if is_blank c
+       then lex f r
+       else if is_digit c
+            then let ds = take_while is_digit l in
+                 (match drop_while is_digit l with
+                  | [] -> cons (TInt (digits_val ds)) []
+                  | d :: r2 ->
+                    if ascii_eqb d '.'
+                    then let fs = take_while is_digit r2 in
+                         cons (TDecT ((digits_val (app ds fs)), (length fs)))
+                           (drop_while is_digit r2)
+                    else cons (TInt (digits_val ds)) (d :: r2))
+            else if ascii_eqb c '.'
+                 then (match r with
+                       | [] -> None
+                       | d :: _ ->
+                         if is_digit d
+                         then let fs = take_while is_digit r in
+                              cons (TDecT ((digits_val fs), (length fs)))
+                                (drop_while is_digit r)
+                         else None)
+                 else if is_id_start c
+                      then cons (TId (c :: (take_while is_id_char r)))
+                             (drop_while is_id_char r)
+                      else if ascii_eqb c '*'
+                           then (match r with
+                                 | [] -> cons TStar r
+                                 | d :: r2 ->
+                                   if ascii_eqb d '*'
+                                   then cons TPow r2
+                                   else cons TStar r)
+                           else if ascii_eqb c '+'
+                                then cons TPlus r
+                                else if ascii_eqb c '-'
+                                     then cons TMinus r
+                                     else if ascii_eqb c '/'
+                                          then cons TSlash r
+                                          else if ascii_eqb c '('
+                                               then cons TLp r
+                                               else if ascii_eqb c ')'
+                                                    then cons TRp r
+                                                    else if ascii_eqb c ','
+                                                         then cons TComma r
+                                                         else if ascii_eqb c
+                                                                   '='
+                                                              then cons TEq r
+                                                              else None)
+
+type pres = (sexpr * tok list) option
+
+(** val p_term : tok list -> pres **)
+
+let p_term = function
+| [] -> None
+| t :: l ->
+  (match t with
+   | TInt n0 ->
+     (match l with
+      | [] -> None
+      | t0 :: l0 ->
+        (match t0 with
+         | TComma ->
+           (match l0 with
+            | [] -> None
+            | t1 :: r ->
+              (match t1 with
+               | TId idx ->
+                 if (&&)
+                      (str_eqb idx
+                        (lit ('i'::('n'::('d'::('e'::('x'::[])))))))
+                      (Z.leb (Zpos XH) n0)
+                 then let row = Z.to_nat (Z.sub n0 (Zpos XH)) in
+                      (match r with
+                       | [] -> None
+                       | t2 :: r' ->
+                         (match t2 with
+                          | TPlus ->
+                            (match r' with
+                             | [] -> None
+                             | t3 :: l1 ->
+                               (match t3 with
+                                | TInt k ->
+                                  (match l1 with
+                                   | [] -> None
+                                   | t4 :: r'0 ->
+                                     (match t4 with
+                                      | TRp -> Some ((SVar (row, k)), r'0)
+                                      | _ -> None))
+                                | _ -> None))
+                          | TMinus ->
+                            (match r' with
+                             | [] -> None
+                             | t3 :: l1 ->
+                               (match t3 with
+                                | TInt k ->
+                                  (match l1 with
+                                   | [] -> None
+                                   | t4 :: r'0 ->
+                                     (match t4 with
+                                      | TRp ->
+                                        Some ((SVar (row, (Z.opp k))), r'0)
+                                      | _ -> None))
+                                | _ -> None))
+                          | TRp -> Some ((SVar (row, Z0)), r')
+                          | _ -> None))
+                 else None
+               | _ -> None))
+         | _ -> None))
+   | _ -> None)
+
+(** val p_primary : nat -> tok list -> pres **)
+
+let rec p_primary f ts =
+  match f with
+  | O -> None
+  | S f' ->
+    (match ts with
+     | [] -> None
+     | t :: r ->
+       (match t with
+        | TInt z0 -> Some ((SInt z0), r)
+        | TDecT (m, s) -> Some ((SDec (m, s)), r)
+        | TId name ->
+          (match r with
+           | [] -> None
+           | t0 :: r0 ->
+             (match t0 with
+              | TLp ->
+                if str_eqb name
+                     (lit
+                       ('s'::('o'::('l'::('v'::('e'::('d'::('_'::('v'::('a'::('l'::('u'::('e'::('s'::[]))))))))))))))
+                then p_term r0
+                else if str_eqb name (lit ('a'::('b'::('s'::[]))))
+                     then (match p_level2 f' r0 with
+                           | Some p ->
+                             let (e, l) = p in
+                             (match l with
+                              | [] -> None
+                              | t1 :: r' ->
+                                (match t1 with
+                                 | TRp -> Some ((SAbs e), r')
+                                 | _ -> None))
+                           | None -> None)
+                     else if str_eqb name (lit ('e'::('x'::('p'::[]))))
+                          then (match p_level2 f' r0 with
+                                | Some p ->
+                                  let (e, l) = p in
+                                  (match l with
+                                   | [] -> None
+                                   | t1 :: r' ->
+                                     (match t1 with
+                                      | TRp -> Some ((SExp e), r')
+                                      | _ -> None))
+                                | None -> None)
+                          else if str_eqb name (lit ('l'::('o'::('g'::[]))))
+                               then (match p_level2 f' r0 with
+                                     | Some p ->
+                                       let (e, l) = p in
+                                       (match l with
+                                        | [] -> None
+                                        | t1 :: r' ->
+                                          (match t1 with
+                                           | TRp -> Some ((SLog e), r')
+                                           | _ -> None))
+                                     | None -> None)
+                               else if (||)
+                                         (str_eqb name
+                                           (lit ('m'::('a'::('x'::[])))))
+                                         (str_eqb name
+                                           (lit ('m'::('i'::('n'::[])))))
+                                    then (match p_level2 f' r0 with
+                                          | Some p ->
+                                            let (a, l) = p in
+                                            (match l with
+                                             | [] -> None
+                                             | t1 :: r1 ->
+                                               (match t1 with
+                                                | TComma ->
+                                                  (match p_level2 f' r1 with
+                                                   | Some p0 ->
+                                                     let (b, l0) = p0 in
+                                                     (match l0 with
+                                                      | [] -> None
+                                                      | t2 :: r2 ->
+                                                        (match t2 with
+                                                         | TRp ->
+                                                           Some ((SMM
+                                                             ((if str_eqb
+                                                                    name
+                                                                    (lit
+                                                                    ('m'::('a'::('x'::[]))))
+                                                               then MMax
+                                                               else MMin), a,
+                                                             b)), r2)
+                                                         | _ -> None))
+                                                   | None -> None)
+                                                | _ -> None))
+                                          | None -> None)
+                                    else None
+              | _ -> None))
+        | TLp ->
+          (match p_level2 f' r with
+           | Some p ->
+             let (e, l) = p in
+             (match l with
+              | [] -> None
+              | t0 :: r' ->
+                (match t0 with
+                 | TRp -> Some ((SPar e), r')
+                 | _ -> None))
+           | None -> None)
+        | _ -> None))
+
+(** val p_mult : nat -> tok list -> pres **)
+
+and p_mult f ts =
+  match f with
+  | O -> None
+  | S f' ->
+    (match p_primary f' ts with
+     | Some p ->
+       let (a, l) = p in
+       (match l with
+        | [] -> Some (a, [])
+        | t :: r ->
+          (match t with
+           | TPow ->
+             (match p_ext_mult f' r with
+              | Some p0 -> let (b, r') = p0 in Some ((SBin (OPow, a, b)), r')
+              | None -> None)
+           | x -> Some (a, (x :: r))))
+     | None -> None)
+
+(** val p_ext_mult : nat -> tok list -> pres **)
+
+and p_ext_mult f ts =
+  match f with
+  | O -> None
+  | S f' ->
+    (match ts with
+     | [] -> p_mult f' ts
+     | t :: r ->
+       (match t with
+        | TMinus ->
+          (match p_ext_mult f' r with
+           | Some p -> let (e, r') = p in Some ((SNeg e), r')
+           | None -> None)
+        | _ -> p_mult f' ts))
+
+(** val p_mul_tail : nat -> sexpr -> tok list -> pres **)
+
+and p_mul_tail f acc ts =
+  match f with
+  | O -> None
+  | S f' ->
+    (match ts with
+     | [] -> Some (acc, ts)
+     | t :: r ->
+       (match t with
+        | TStar ->
+          (match p_ext_mult f' r with
+           | Some p ->
+             let (b, r') = p in p_mul_tail f' (SBin (OMul, acc, b)) r'
+           | None -> None)
+        | TSlash ->
+          (match p_ext_mult f' r with
+           | Some p ->
+             let (b, r') = p in p_mul_tail f' (SBin (ODiv, acc, b)) r'
+           | None -> None)
+        | _ -> Some (acc, ts)))
+
+(** val p_add_operand : nat -> tok list -> pres **)
+
+and p_add_operand f ts =
+  match f with
+  | O -> None
+  | S f' ->
+    (match p_mult f' ts with
+     | Some p -> let (a, r) = p in p_mul_tail f' a r
+     | None -> None)
+
+(** val p_ext_add : nat -> tok list -> pres **)
+
+and p_ext_add f ts =
+  match f with
+  | O -> None
+  | S f' ->
+    (match ts with
+     | [] -> p_add_operand f' ts
+     | t :: r ->
+       (match t with
+        | TMinus ->
+          (match p_ext_add f' r with
+           | Some p -> let (e, r') = p in Some ((SNeg e), r')
+           | None -> None)
+        | _ -> p_add_operand f' ts))
+
+(** val p_add_tail : nat -> sexpr -> tok list -> pres **)
+
+and p_add_tail f acc ts =
+  match f with
+  | O -> None
+  | S f' ->
+    (match ts with
+     | [] -> Some (acc, ts)
+     | t :: r ->
+       (match t with
+        | TPlus ->
+          (match p_ext_add f' r with
+           | Some p ->
+             let (b, r') = p in p_add_tail f' (SBin (OAdd, acc, b)) r'
+           | None -> None)
+        | TMinus ->
+          (match p_ext_add f' r with
+           | Some p ->
+             let (b, r') = p in p_add_tail f' (SBin (OSub, acc, b)) r'
+           | None -> None)
+        | _ -> Some (acc, ts)))
+
+(** val p_level2 : nat -> tok list -> pres **)
+
+and p_level2 f ts =
+  match f with
+  | O -> None
+  | S f' ->
+    (match ts with
+     | [] ->
+       (match p_add_operand f' ts with
+        | Some p -> let (a, r') = p in p_add_tail f' a r'
+        | None -> None)
+     | t :: r ->
+       (match t with
+        | TMinus ->
+          (match p_add_operand f' r with
+           | Some p -> let (a, r') = p in p_add_tail f' (SNeg a) r'
+           | None -> None)
+        | _ ->
+          (match p_add_operand f' ts with
+           | Some p -> let (a, r') = p in p_add_tail f' a r'
+           | None -> None)))
+
+(** val parse_tokens : tok list -> (nat * sexpr) option **)
+
+let parse_tokens = function
+| [] -> None
+| t :: l ->
+  (match t with
+   | TId name ->
+     (match l with
+      | [] -> None
+      | t0 :: r ->
+        (match t0 with
+         | TLp ->
+           if str_eqb name
+                (lit
+                  ('s'::('o'::('l'::('v'::('e'::('d'::('_'::('v'::('a'::('l'::('u'::('e'::('s'::[]))))))))))))))
+           then (match p_term r with
+                 | Some p ->
+                   let (s, l0) = p in
+                   (match s with
+                    | SVar (row, k) ->
+                      (match k with
+                       | Z0 ->
+                         (match l0 with
+                          | [] -> None
+                          | t1 :: r' ->
+                            (match t1 with
+                             | TEq ->
+                               (match p_level2
+                                        (add
+                                          (mul (S (S (S (S O)))) (length r'))
+                                          (S (S (S (S (S (S (S (S O)))))))))
+                                        r' with
+                                | Some p0 ->
+                                  let (e, l1) = p0 in
+                                  (match l1 with
+                                   | [] -> Some (row, e)
+                                   | _ :: _ -> None)
+                                | None -> None)
+                             | _ -> None))
+                       | _ -> None)
+                    | _ -> None)
+                 | None -> None)
+           else None
+         | _ -> None))
+   | _ -> None)
+
+(** val parse_stmt : str -> (nat * sexpr) option **)
+
+let parse_stmt l =
+  match lex (S (length l)) l with
+  | Some ts -> parse_tokens ts
+  | None -> None
+
+(** val stmt_of_block : str -> str **)
+
+let stmt_of_block blk =
+  logical false (match plain_lines blk [] with
+                 | [] -> []
+                 | _ :: code -> code)
+
+(** val sexpr_eqb : sexpr -> sexpr -> bool **)
+
+let rec sexpr_eqb a b =
+  match a with
+  | SVar (i, k) ->
+    (match b with
+     | SVar (j, l) -> (&&) (Nat.eqb i j) (Z.eqb k l)
+     | _ -> false)
+  | SInt x -> (match b with
+               | SInt y -> Z.eqb x y
+               | _ -> false)
+  | SDec (m, s) ->
+    (match b with
+     | SDec (m', s') -> (&&) (Z.eqb m m') (Nat.eqb s s')
+     | _ -> false)
+  | SNeg x -> (match b with
+               | SNeg y -> sexpr_eqb x y
+               | _ -> false)
+  | SPar x -> (match b with
+               | SPar y -> sexpr_eqb x y
+               | _ -> false)
+  | SBin (o, x1, x2) ->
+    (match b with
+     | SBin (o', y1, y2) ->
+       (&&)
+         ((&&)
+           (match o with
+            | OAdd -> (match o' with
+                       | OAdd -> true
+                       | _ -> false)
+            | OSub -> (match o' with
+                       | OSub -> true
+                       | _ -> false)
+            | OMul -> (match o' with
+                       | OMul -> true
+                       | _ -> false)
+            | ODiv -> (match o' with
+                       | ODiv -> true
+                       | _ -> false)
+            | OPow -> (match o' with
+                       | OPow -> true
+                       | _ -> false)) (sexpr_eqb x1 y1)) (sexpr_eqb x2 y2)
+     | _ -> false)
+  | SAbs x -> (match b with
+               | SAbs y -> sexpr_eqb x y
+               | _ -> false)
+  | SExp x -> (match b with
+               | SExp y -> sexpr_eqb x y
+               | _ -> false)
+  | SLog x -> (match b with
+               | SLog y -> sexpr_eqb x y
+               | _ -> false)
+  | SMM (m, x1, x2) ->
+    (match b with
+     | SMM (m', y1, y2) ->
+       (&&)
+         ((&&)
+           (match m with
+            | MMax -> (match m' with
+                       | MMax -> true
+                       | MMin -> false)
+            | MMin -> (match m' with
+                       | MMax -> false
+                       | MMin -> true)) (sexpr_eqb x1 y1)) (sexpr_eqb x2 y2)
+     | _ -> false)
+
+(** val block_matches : str -> nat -> sexpr -> bool **)
+
+let block_matches blk row tree =
+  match parse_stmt (stmt_of_block blk) with
+  | Some p ->
+    let (r, e) = p in (&&) (Nat.eqb r row) (sexpr_eqb e (s_regroup tree))
+  | None -> false
